@@ -125,7 +125,7 @@ func (g *dataGen) val(t TRef, depth int, key bool) *Val {
 		i := g.r.Intn(3)
 		return &Val{K: "enum", I: int64(i), S: ColorNames[i]}
 	case "obj":
-		if depth <= 0 || g.budget <= 0 || g.r.Chance(15) {
+		if depth <= 0 || g.budget <= 0 || (depth < 3 && g.r.Chance(15)) {
 			return &Val{K: "null"}
 		}
 		return &Val{K: "obj", O: g.obj(t.Name, depth)}
@@ -140,6 +140,9 @@ func (g *dataGen) val(t TRef, depth int, key bool) *Val {
 			return &Val{K: "null"} // nil slice: renders as []
 		}
 		n := g.r.Intn(4)
+		if depth >= 3 && n == 0 {
+			n = 2
+		}
 		if depth <= 0 || g.budget <= 0 {
 			if t.Elem.K == "obj" || t.Elem.K == "union" || t.Elem.K == "list" {
 				n = 0
